@@ -164,10 +164,6 @@ def make_ignore(mode, lo, hi, full=False, props=("C14",), known=()):
             return
         finally:
             reset_notebook_differ()
-        if "F32" in known and diffs["id"] == 3 and "id" in ignored:
-            # F32: ids are ignored by the differs but still used to align the cells
-            E.known("F32")
-            return
         E.nontrivial(bool(ignored) and any(diffs.values()))
         E.goal("nonempty-diff-with-ignores", bool(ignored) and len(d) > 0)
         E.goal("empty-diff-with-differences", len(d) == 0 and any(diffs.values()))
